@@ -562,15 +562,10 @@ example (s : State) (a : Nat) : step s (.look 0 a) = none := by simp [step]
 
 /-- **A thread is its id.** No call in the tree evaluates ECAL code with an integer literal as
     thread id (regenerated: `Ecal.Gen.C12.literalTids`, all packages, `Runtime.Eval` and
-    `ECALFunction.Run`). The second disjunct is the ONE recorded hit on the tree as it was when
-    this was written — the debugger's `inject` evaluates as "thread 999", so two concurrent
-    injections (or an injection and the pool's 999th id) re-enter each other's blocks: a genuine
-    violation of C12, shown by harness mode J (occupancy 5 in one block) and recorded as known
-    finding `inject-shares-thread-999` until the repair (a fresh id per injection, owned by
-    property C16) is in the tree; then the list is empty and the disjunct is dropped. -/
-theorem no_literal_tid :
-    Ecal.Gen.C12.literalTids = [] ∨
-    Ecal.Gen.C12.literalTids = ["interpreter/ecalDebugger.InjectValue:999"] := by decide
+    `ECALFunction.Run`). (The one hit there was — the debugger's `inject` evaluated as "thread 999",
+    so concurrent injections re-entered each other's blocks — is repaired in /repo f411ead: a fresh
+    id per injection; harness mode J runs concurrent injections as ordinary cases.) -/
+theorem no_literal_tid : Ecal.Gen.C12.literalTids = [] := by decide
 
 /-- The shape of `NewThreadID` extracted from `/repo` on every run (`Ecal.Gen.C12.idSkeleton`):
     the read and the increment of the id counter happen inside ONE critical section (or are one
